@@ -82,6 +82,27 @@ def check(repo: Repo) -> Result:
             res.bad(f"const:{key}", f"{LUT} physical_constants[{key!r}]", f"constant {key!r} ({src}): " + "; ".join(probs), want, val * sc, rid=r3)
         else:
             res.ok(f"const:{key}", r3)
+    # relations that tie constants to the *units* built from the same physics (m_pl, l_pl, t_pl rows of the unit table are
+    # derived from newton_mks / hbar / c): evaluated on the SI magnitudes of the constant rows, so a row that is given its
+    # own literal drifts away from the units and constants derived from the shared ratio
+    post_rel = [
+        ("planck-mass", lambda: (si["m_pl"][0] ** 2 * si["G"][0], si["hbar"][0] * si["c"][0]), 1e-14, "m_pl^2 G = hbar c"),
+        ("planck-length", lambda: (si["l_pl"][0] ** 2 * si["c"][0] ** 3, si["hbar"][0] * si["G"][0]), 1e-14, "l_pl^2 c^3 = hbar G"),
+        ("planck-time", lambda: (si["t_pl"][0] * si["c"][0], si["l_pl"][0]), 1e-14, "t_pl c = l_pl"),
+        ("G-ratio", lambda: (si["G"][0], t.ratios["newton_mks"]), 0.0, "the G row is the ratio the Planck and geometrized units are derived from"),
+    ]
+    for name, f, tol, text in post_rel:
+        try:
+            lhs, rhs = f()
+        except KeyError as e:
+            res.bad(f"rowrel:{name}", LUT, f"constant / ratio {e} missing", rid=r1b)
+            continue
+        res.check(rel(lhs, rhs) <= tol, f"rowrel:{name}", LUT, f"relation between constant rows violated: {text} (relative residual {rel(lhs, rhs):.3g})", rhs, lhs, rid=r1b)
+    # a constant is a floating-point quantity: an integer literal in the table makes an int64 constant whose powers
+    # overflow silently (c_mks**3) or raise (c_mks**-1)
+    r8 = res.rule("C15-R8", "every constant row holds a Python float (an integer literal yields an integer-typed constant: c_mks**3 overflows int64, c_mks**-1 raises)", floor=30)
+    for key, (val, unit, alts) in t.constants:
+        res.check(isinstance(val, float), f"const-float:{key}", f"{LUT} physical_constants[{key!r}]", f"constant {key!r} is built from the {type(val).__name__} {val!r}: the quantity and its _mks form get an integer dtype", "float", type(val).__name__, rid=r8)
     for key in SPEC.CONSTANTS:
         if key not in si:
             res.bad(f"const-missing:{key}", LUT, f"documented constant {key!r} is missing from physical_constants", rid=r3)
@@ -226,6 +247,8 @@ def add_constants_shape(repo, res):
 UO = "unyt/unit_object.py"
 
 MUTANTS = [
+    Mutant("c-integer-literal", RAT, None, "speed_of_light_m_per_s = 2.99792458e8", "speed_of_light_m_per_s = 299792458", ("C15-R8",)),
+    Mutant("G-row-own-literal", LUT, None, "                newton_mks,\n                \"m**3/kg/s**2\",", "                6.67430e-11,\n                \"m**3/kg/s**2\",", ("C15-R1b",)),
     Mutant("hbar-factor", RAT, None, "hbar_mks = 0.5 * planck_mks / np.pi", "hbar_mks = planck_mks / np.pi", ("C15-R1",)),
     Mutant("eps0-slip", RAT, None, "eps_0 = 1.0 / (speed_of_light_m_per_s**2 * mu_0)", "eps_0 = 1.0 / (speed_of_light_m_per_s * mu_0)", ("C15-R1", "C15-R3")),
     Mutant("sb-power", RAT, None, "* boltzmann_constant_J_per_K**4", "* boltzmann_constant_J_per_K**3", ("C15-R1",)),
